@@ -303,6 +303,43 @@ Proof.
   - vm_compute in Hn. injection Hn as <-. left. vm_compute. reflexivity.
 Qed.
 
+
+(* ---- C01 drain: delivery 21 (held back behind 20) survives the acknowledgement of 20 and is
+        handed out, with its payload, by the next pull ---- *)
+Example c01_drain_here :
+  exists p, In p (pulled_of (answer st_acked 600 o_pull2)) /\ p_ack p = 21%N /\ p_payload p = "2".
+Proof.
+  pick_del st_leased 21%N d Hd.
+  destruct (get_msg st_acked (d_msg d)) as [m|] eqn:Hm; [|vm_compute in Hm; discriminate].
+  destruct (find_live_sub st_acked sn) as [s|] eqn:Hs; [|vm_compute in Hs; discriminate].
+  assert (Em : m_payload m = "2") by (vm_compute in Hm; injection Hm as <-; reflexivity).
+  destruct (C01_drain [(500, o_ack1)] st_leased 450 d 600 sn 10 [21%N] [] 600 [] [] s m)
+    as [(d' & Hin' & Hid' & Hdue & _)|(p & H1 & H2 & _ & H4 & _)].
+  - apply reachable_ok. exact reach_leased.
+  - apply all_legal_b_sound. vm_compute; reflexivity.
+  - cbn; lia.
+  - exact Hd.
+  - reflexivity.
+  - vm_compute. reflexivity.
+  - intros s0 now o d0 Hin Hd0 Hid _. cbn [trace] in Hin.
+    destruct Hin as [E|[]]; injection E as <- <- <-; each_in Hd0; try (vm_compute in Hid; discriminate);
+      vm_compute; reflexivity.
+  - intros s0 now o Hin. cbn [trace] in Hin. destruct Hin as [E|[]]; injection E as <- <- <-; vm_compute; reflexivity.
+  - vm_compute; reflexivity.
+  - reflexivity.
+  - lia.
+  - exact Hs.
+  - vm_compute in Hs. injection Hs as <-. reflexivity.
+  - vm_compute; reflexivity.
+  - intros d' Hd' Hid. vm_compute in Hs. injection Hs as <-.
+    each_in Hd'; try (vm_compute in Hid; discriminate). split; vm_compute; [discriminate|reflexivity].
+  - vm_compute in Hs. injection Hs as <-. vm_compute. discriminate.
+  - exact Hm.
+  - intros m' Hm'. each_in Hm'; vm_compute; split; discriminate.
+  - exfalso. each_in Hin'; try (vm_compute in Hid'; discriminate); vm_compute in Hdue; discriminate.
+  - exists p. rewrite <- Em. auto.
+Qed.
+
 Print Assumptions c01_publish_delivers_here.
 Print Assumptions c01_never_lost_here.
 Print Assumptions c05_no_overtake_history_here.
